@@ -521,6 +521,8 @@ def show(e, depth=0):
         return "%s{%s}" % (short(kn), ", ".join(show(a, depth + 1) for a in e[2]))
     if k == "index":
         return show(e[1], depth) + "[..]"
+    if k == "upd":
+        return "%s with .%s = %s" % (show(e[1], depth + 1), e[2] or e[3], show(e[4], depth + 1))
     return "?%s" % (e[1:],)
 
 
